@@ -427,7 +427,8 @@ def finish(ctx, level_text=None):
     if new_fail:
         f = new_fail[0]
         path = write_replay(ctx, "failing-input", {"op_lines": [f["op"]], "impl_result": f.get("impl"), "model_result": f.get("model"),
-                                                   "oracle": f["clause"], "stream": f["stream"], "other_failures": len(new_fail) - 1})
+                                                   "oracle": f["clause"], "stream": f["stream"], "other_failures": len(new_fail) - 1,
+                                                   "broken_obligations": ctx.p_broken[:20], "broken_correspondence": ctx.k_broken[:20]})
         print("VIOLATION property=%s replay=%s" % (ctx.pid, path))
         violations = len(new_fail)
         rc = 1
